@@ -168,6 +168,46 @@ fn mixed(s: &str, c: char, hist: u32) -> Result<(), String> {
     Ok(())
 }
 
+/// mixed front/back histories for a `&str` delimiter.  std's `Split<&str>` is not double-ended (forward and reverse
+/// searches can decompose a string differently when occurrences overlap), so the model is a deque of std's pieces and
+/// applies only when both directions give the same decomposition - which includes the empty delimiter.  After every
+/// step the reversed copy of the iterator must yield the rest of the deque from the other end.
+fn mixed_str(s: &str, dl: &str, hist: u32) -> Result<(), String> {
+    use std::collections::VecDeque;
+    let fwd: Vec<&str> = s.split(dl).collect();
+    let mut rv: Vec<&str> = s.rsplit(dl).collect();
+    rv.reverse();
+    if fwd.len() != rv.len() || fwd.iter().zip(&rv).any(|(a, b)| a.len() != b.len() || a.as_ptr() != b.as_ptr()) {
+        return Ok(());
+    }
+    let n = fwd.len() as u32 + 2;
+    let mut dq: VecDeque<&str> = fwd.iter().copied().collect();
+    let mut dqr = dq.clone();
+    let mut k = kstr::split(s, dl);
+    let mut kr = kstr::rsplit(s, dl);
+    for i in 0..n {
+        let back = (hist >> i) & 1 == 1;
+        let (kv, ov) = (k.step(back), if back { dq.pop_back() } else { dq.pop_front() });
+        ensure!(same_opt(kv, ov), "split({s:?},{dl:?}) history {hist:#b} step {i} back={back}: konst {} model {} (pieces {:?})", dopt(kv, s), dopt(ov, s), fwd);
+        // rsplit's front is the deque's back
+        let (kv, ov) = (kr.step(back), if back { dqr.pop_front() } else { dqr.pop_back() });
+        ensure!(same_opt(kv, ov), "rsplit({s:?},{dl:?}) history {hist:#b} step {i} back={back}: konst {} model {} (pieces {:?})", dopt(kv, s), dopt(ov, s), fwd);
+        // reversing what is left yields the remaining pieces from the other end
+        let mut r = k.copy().rev();
+        let mut left: Vec<&str> = dq.iter().rev().copied().collect();
+        left.truncate(3);
+        for (j, want) in left.iter().enumerate() {
+            let got = r.step(false);
+            ensure!(same_opt(got, Some(want)), "split({s:?},{dl:?}) history {hist:#b}: after step {i}, rev() item {j}: konst {} model {} (pieces {:?})", dopt(got, s), d(want, s), fwd);
+        }
+        if dq.is_empty() {
+            let got = k.copy().rev().step(false);
+            ensure!(got.is_none(), "split({s:?},{dl:?}) history {hist:#b}: after step {i} rev() of the exhausted iterator yields {}", dopt(got, s));
+        }
+    }
+    Ok(())
+}
+
 pub fn run_case(c: &Case) -> Result<(), String> {
     let s = c.s.as_str();
     if c.as_char {
@@ -178,7 +218,10 @@ pub fn run_case(c: &Case) -> Result<(), String> {
         }
     } else {
         let dl = c.delim.as_str();
-        single_direction!(s, dl, "&str");
+        match c.hist {
+            None => single_direction!(s, dl, "&str"),
+            Some(h) => mixed_str(s, dl, h)?,
+        }
     }
     Ok(())
 }
@@ -258,6 +301,20 @@ fn explore(ctx: &mut Ctx) {
         }
     }
     ctx.exhaustive_part(&format!("all strings of 0..={lm} chars over {{a,b,é}} x char delimiters {{a,é}} x all 2^(pieces+2) front/back histories of split and rsplit"));
+    // mixed histories, &str delimiters whose forward and reverse decompositions agree (the empty delimiter included)
+    let lms = ctx.by_tier(4, 6);
+    for s in gen::strings(&alpha, lms) {
+        for dl in ["", "a", "é", "ab", "éa", "aé"] {
+            let n = (s.split(dl).count() as u32 + 2).min(10);
+            for h in 0..(1u32 << n) {
+                eval(ctx, Case { s: s.clone(), delim: dl.into(), as_char: false, hist: Some(h) });
+            }
+        }
+        if ctx.too_many() {
+            return;
+        }
+    }
+    ctx.exhaustive_part(&format!("all strings of 0..={lms} chars over {{a,b,é}} x &str delimiters {{\"\", a, é, ab, éa, aé}} (when split and rsplit decompose the string alike) x all 2^(pieces+2) front/back histories of split and rsplit against a deque of std's pieces, rev() of the rest after every step"));
     // wider text alphabet, delimiters with shared lead bytes
     let wide = ["é", "è", "漢", "😀", ","];
     for s in gen::strings(&wide, ctx.by_tier(4, 5)) {
